@@ -45,7 +45,11 @@ META = {
     'rule': ('cases = source trees (NumE/BoolE) over columns a,b and small int constants, evaluated on a 25-row table holding every '
              'pair over {NULL,-1,0,1,2}; exhaustive: every tree of depth <= 1, every (parent operator, child operators) shape of '
              'depth 2 with several leaf assignments; seeded random trees up to depth 6; distinct = distinct serialised tree; '
-             'non-trivial = the tree has at least one operator below the root'),
+             'non-trivial = the tree has at least one operator below the root.  Every tree runs on one of six CLASS CONFIGURATIONS holding the '
+             'same rows (written by bound parameters): declared columns; sqlmeta.fromDatabase over TINYINT(1)/SMALLINT/REAL and over INT(11)/BIGINT/FLOAT '
+             'tables; sqlmeta.addColumn; explicit dbName/table; an InheritableSQLObject child (columns in two tables) — the corpus and every direct '
+             '==/!= comparison of depth <= 1 on all six.  Clause-plumbing stream: select(A).filter(C), chained / repeated filters, connection=, count(), '
+             'one-piece AND/OR/NOT, sqlbuilder.Select.filter, with C a boolean tree or a plain Python constant (False, True, 0, 1, 2, -1, 0.0, 0.5, None)'),
     'trusted': ['reference SQL expression grammar + SQLite-style three-valued evaluator (Model/Expr.lean parseExpr/ev), validated against SQLite by execution',
                 'spelling table SQL operator string -> meaning (ExprSyn.lean BinOp.spell / extractor BIN table)',
                 'mysql/postgres/firebird/sybase/maxdb/mssql parsers are not available: their renderings are compared token-wise and read by the reference parsers only'],
@@ -62,6 +66,9 @@ META = {
                     'outside it (INSubquery / LIKE with a NOT… or parenthesis-starting left operand) the renderer does not parenthesise',
                     '`x IN ()` (empty list) is rendered as such: SQLite evaluates it to false; MySQL/PostgreSQL reject it as a syntax error (not executable here)',
                     '`int % expr` (SQLExpression.__rmod__ -> MOD(a, b) on every dialect) is outside the fragment',
+                    'oracle-only (not in the Lean model): how a class obtains its columns (the six class configurations), SelectResults.filter / count, '
+                    'and plain Python constants used as whole conditions; inheritance: a child-table column that occurs only inside an IN-list is kept off the '
+                    'inheritance configuration (tablesUsed does not look into lists: OperationalError, reported as a note)',
                     'float constants: the Lean model treats the literal as an atom whose value is the constant (in every number domain); '
                     'that the emitted text decodes to exactly that double and stays a REAL literal is checked on the real code for every case '
                     '(token stream: text -> float == constant; oracle: row selection on SQLite and the reference evaluator), not proved; '
